@@ -295,6 +295,37 @@ func c16Positions() []c16Pos {
 	}
 }
 
+// c16EscapedPositions: the quoted positions again, the literal's characters spelled with \uXXXX escapes (all of
+// them / only the last one): the text between the quotes is then longer than the number it denotes.
+func c16EscapedPositions(base []c16Pos) []c16Pos {
+	esc := func(l string, all bool) string {
+		var sb strings.Builder
+		for i := 0; i < len(l); i++ {
+			if all || i == len(l)-1 {
+				fmt.Fprintf(&sb, `\u%04x`, l[i])
+			} else {
+				sb.WriteByte(l[i])
+			}
+		}
+		return sb.String()
+	}
+	var out []c16Pos
+	for _, p := range base {
+		if p.name != "map key" && p.name != ",string" {
+			continue
+		}
+		p := p
+		for _, all := range []bool{true, false} {
+			all := all
+			q := p
+			q.name = p.name + map[bool]string{true: " (every character escaped)", false: " (last character escaped)"}[all]
+			q.doc = func(l string) string { return p.doc(esc(l, all)) }
+			out = append(out, q)
+		}
+	}
+	return out
+}
+
 func c16Form(lit string, it intType) string {
 	x, ok := new(big.Int).SetString(lit, 10)
 	isInt := ok && lit != "" && lit != "-" && !strings.HasPrefix(lit, "+") &&
@@ -342,6 +373,7 @@ func c16Decode(c *work.Ctx) {
 		W = 1 << 13
 	}
 	positions := c16Positions()
+	positions = append(positions, c16EscapedPositions(positions)...)
 	for _, it := range c16IntTypes {
 		// literals
 		seen := map[string]bool{}
@@ -396,7 +428,7 @@ func c16Decode(c *work.Ctx) {
 			padded := form == "in-range(padded)"
 			for _, pos := range positions {
 				doc := []byte(pos.doc(lit))
-				if (pos.name == "map key" || pos.name == ",string") && strings.ContainsAny(lit, "\"\\") {
+				if (strings.HasPrefix(pos.name, "map key") || strings.HasPrefix(pos.name, ",string")) && strings.ContainsAny(lit, "\"\\") {
 					continue
 				}
 				if padded {
@@ -437,7 +469,7 @@ func c16Decode(c *work.Ctx) {
 					want := fresh
 					if wantVal != nil {
 						want = wantVal.String()
-						if pos.name == "map key" {
+						if strings.HasPrefix(pos.name, "map key") {
 							want = "[" + want + "]"
 						}
 					}
